@@ -337,6 +337,10 @@ class CachedEvaluationMapper(CachedMapper, EvaluationMapper):
      """                    \\
 """,
      "fixed defect D12 comes back (a float -1.0 factor is printed as a subtraction)"),
+    ("c14-revert-d13", "C14", CC,
+     "        force_parens_around = (Comparison, BitwiseAnd, BitwiseOr, BitwiseXor)",
+     "        force_parens_around = (Comparison,)",
+     "fixed defect D13 comes back (bitwise operands of a comparison lose their parentheses)"),
     # ---------------- C12
     ("c12-multiset-to-set", "C12", CSE,
      "            return type(expr), frozenset(kid_count.items())",
